@@ -43,15 +43,11 @@ class TlcResult:
 
 
 def _extract_prints(out, tag):
+    """payloads of PrintT(<<tag, ...>>), also when TLC pretty-printed the tuple over several lines"""
     res = []
-    key = '<<"%s", ' % tag
-    i = 0
     n = len(out)
-    while True:
-        j = out.find(key, i)
-        if j < 0:
-            break
-        # bracket matching, honouring strings
+    for m in re.finditer(r'<<\s*"%s",\s*' % re.escape(tag), out):
+        j = m.start()
         k = j
         depth = 0
         instr = False
@@ -74,8 +70,7 @@ def _extract_prints(out, tag):
                     if depth == 0:
                         break
             k += 1
-        res.append(out[j + len(key):k - 1])
-        i = k
+        res.append(out[m.end():k - 1].strip())
     return res
 
 
